@@ -63,7 +63,7 @@ class QCircuitEnhanced(QCircuit):
         len_g = len(self.gates)  # type: ignore
         while i < len_g:
             if i < (len_g - 1) and self.gates[i] == self.gates[i + 1]:  # type: ignore
-                if isinstance(result[-1][0], gates.Barrier):
+                if result and isinstance(result[-1][0], gates.Barrier):
                     result.pop()
                 i += 2
             elif (
@@ -71,7 +71,7 @@ class QCircuitEnhanced(QCircuit):
                 and self.gates[i] == self.gates[i + 2]  # type: ignore
                 and isinstance(self.gates[i + 1][0], gates.Barrier)  # type: ignore
             ):
-                if isinstance(result[-1][0], gates.Barrier):
+                if result and isinstance(result[-1][0], gates.Barrier):
                     result.pop()
                 i += 3
             else:
